@@ -72,7 +72,8 @@ esac
 
 KEYS = ['include_dirs', 'library_dirs', 'libraries', 'define_macros', 'extra_compile_args', 'extra_link_args']
 SEPS = [' ', ' ', ' ', '  ', '\t', '\n', '\r\n', ' \n', '\x0b', '\x0c', ' \t ']
-PAY = list('abzAZ019/._-=+,:@%~"\'(){}$*?#!&;|<>[]^`') + ['\xe9', '\xdf', '\u4e2d', '\U0001f600', '\u200b', '\ufeff', '\xd7']
+# (the option letters themselves are frequent in the payload: '-llzma', '-LLibs', '-IInclude', '-L-odd')
+PAY = list('abzAZ019/._-=+,:@%~"\'(){}$*?#!&;|<>[]^`') + list('lLIDW-lLI') + ['\xe9', '\xdf', '\u4e2d', '\U0001f600', '\u200b', '\ufeff', '\xd7']
 assert not any(c.isspace() or c == '\\' for c in PAY)
 BADBYTES = ['ff', 'c3', 'e4b8', 'f09f98', 'c0af', 'eda080', '80']
 
